@@ -50,6 +50,7 @@ class Cfg(object):
         self.zero_work = True
         self.due = False
         self.per_task_rules = True
+        self.work_pool = None  # override of WORK_POOL (dyadic mode)
         for k, v in kw.items():
             if not hasattr(self, k):
                 raise AttributeError(k)
@@ -107,7 +108,8 @@ def model_spec(draw, cfg):
         prog_s = st.sampled_from([0.0, 0.0, 0.0, 0.5])
         cost_s = st.sampled_from(COST_POOL)
     else:
-        pool = WORK_POOL if cfg.zero_work else [w for w in WORK_POOL if w > 0]
+        pool = cfg.work_pool if cfg.work_pool is not None else WORK_POOL
+        pool = pool if cfg.zero_work else [w for w in pool if w > 0]
         work_s = st.sampled_from(pool)
         skill_s = st.sampled_from(SKILL_POOL)
         prog_s = st.sampled_from(PROG_POOL)
